@@ -188,6 +188,16 @@ impl Queues {
         self.complete_len(w, q, c, n as u32);
     }
 
+    /// Write `data` into the chain's writable part and publish the completion with a reported
+    /// length of `claimed` (a device overstating what it wrote).
+    pub fn complete_claim(&mut self, w: &mut World, q: u16, c: &Chain, data: &[u8], claimed: u32) {
+        let Some(s) = self.v.get_mut(q as usize).and_then(|s| s.as_mut()) else { return };
+        if let Err(m) = s.rq.write_chain(&w.hal, c, data) {
+            w.fault("devmem", format!("device writing response of chain {}: {}", c.head, m));
+        }
+        self.complete_len(w, q, c, claimed);
+    }
+
     pub fn complete_len(&mut self, w: &mut World, q: u16, c: &Chain, len: u32) {
         let Some(s) = self.v.get_mut(q as usize).and_then(|s| s.as_mut()) else { return };
         match s.rq.push_used(&w.hal, c.head as u32, len) {
